@@ -320,3 +320,49 @@ fn ka2_inflate_end_releases_once() {
     kani::cover!(matches!(mode, Mode::Match));
     core::mem::forget(state);
 }
+
+/// `inflateInit2(strm, 0)` asks for the window size announced by the zlib header.  A reset stream must do that again for the
+/// next stream, as a fresh one would (zlib.h: inflateReset "is equivalent to inflateEnd followed by inflateInit"): the size
+/// the previous header announced must not stay latched (C14 "reset == fresh", C03: a later stream with a larger window is
+/// valid input for an inflateInit2(0) decoder).
+#[kani::proof]
+#[kani::unwind(6)]
+#[kani::stub(crate::inflate::inftrees::inflate_table, stub_table_unreachable)]
+#[kani::stub(core::fmt::write, stub_fmt_write)]
+#[kani::stub(core::panicking::panic_nounwind, stub_pn)]
+#[kani::stub(core::panicking::panic_nounwind_fmt, stub_pnf)]
+#[kani::stub(crate::inflate::inflate_fast_help, stub_fast_unreachable)]
+#[kani::stub(crate::inflate::State::len_and_friends, stub_laf_suspends)]
+#[kani::stub(crate::inflate::writer::Writer::copy_match, stub_copy_match_unreachable)]
+#[kani::stub(crate::inflate::writer::Writer::extend_from_window, stub_efw_unreachable)]
+#[kani::stub(<[u16]>::fill, stub_fill_unreachable)]
+fn ki8_reset_forgets_header_window_bits() {
+    let mut win = [0u8; 8 + 64];
+    let mut state = typed_state(&mut win, 1, Mode::Head); // zlib wrapper (concrete: R11)
+    state.wbits = 0; // as inflateInit2(strm, 0) leaves it
+    state.flush = InflateFlush::Block;
+    // a zlib header announcing a window of 2^(cinfo + 8) bytes, cinfo symbolic; FLG completes the check value, no FDICT
+    let cinfo: u8 = kani::any();
+    kani::assume(cinfo <= 7);
+    let cmf = (cinfo << 4) | 8;
+    let flg: u8 = kani::any();
+    kani::assume(flg & 0x20 == 0 && ((cmf as u32) * 256 + flg as u32) % 31 == 0);
+    let input = [cmf, flg];
+    let mut out = [0u8; 4];
+    unsafe { state.bit_reader.update_slice(input.as_ptr(), 2) };
+    state.in_available = 2;
+    state.writer = unsafe { Writer::new_uninit(out.as_mut_ptr(), 4) };
+    let rc = state.dispatch();
+    assert!(rc == ReturnCode::Ok && matches!(state.mode, Mode::Type) && state.wbits == cinfo + 8);
+    let mut stream = typed_stream(unsafe { &mut *(&mut state as *mut State) });
+    assert!(reset(&mut stream) == ReturnCode::Ok);
+    assert!(stream.state.wbits == 0, "the next stream's header decides the window size again");
+    assert!(matches!(stream.state.mode, Mode::Head));
+    // an explicit size survives a plain reset
+    stream.state.wbits = 12;
+    assert!(reset(&mut stream) == ReturnCode::Ok);
+    assert!(stream.state.wbits == 12);
+    kani::cover!(cinfo == 1);
+    core::mem::forget(stream);
+    core::mem::forget(state);
+}
